@@ -89,25 +89,26 @@ structure LState where
   toks : List Tok          -- reversed
   deriving Repr
 
-def lexTop (len : Bool) (toks : List Tok) (c : Char) : LState :=
-  if c == ' ' || c == '\t' then ⟨.top, toks⟩
-  else if c == '\n' || c == '\r' then ⟨.top, .nl :: toks⟩
-  else if c == '#' then ⟨.comment, toks⟩
-  else if c == '"' then ⟨.str [] .none, toks⟩
-  else if c == '[' then ⟨.cls true false [] none false .none, toks⟩
-  else if isWordChar len c then ⟨.word [c], toks⟩
-  else if c == ':' then ⟨.colon1, toks⟩
-  else if c == '(' then ⟨.top, .lparen :: toks⟩
-  else if c == ')' then ⟨.top, .rparen :: toks⟩
-  else if c == '|' then ⟨.top, .bar :: toks⟩
-  else if c == '*' then ⟨.top, .star :: toks⟩
-  else if c == '+' then ⟨.top, .plus :: toks⟩
-  else if c == '?' then ⟨.top, .qmark :: toks⟩
-  else if c == '.' then ⟨.top, .dot :: toks⟩
-  else if c == '{' then ⟨.top, .lbrace :: toks⟩
-  else if c == '}' then ⟨.top, .rbrace :: toks⟩
-  else if c == ',' then ⟨.top, .comma :: toks⟩
-  else ⟨.fail, toks⟩
+/-- reading character `c` between tokens: (next mode, tokens emitted). -/
+def lexTop (len : Bool) (c : Char) : LMode × List Tok :=
+  if c == ' ' || c == '\t' then (.top, [])
+  else if c == '\n' || c == '\r' then (.top, [.nl])
+  else if c == '#' then (.comment, [])
+  else if c == '"' then (.str [] .none, [])
+  else if c == '[' then (.cls true false [] none false .none, [])
+  else if isWordChar len c then (.word [c], [])
+  else if c == ':' then (.colon1, [])
+  else if c == '(' then (.top, [.lparen])
+  else if c == ')' then (.top, [.rparen])
+  else if c == '|' then (.top, [.bar])
+  else if c == '*' then (.top, [.star])
+  else if c == '+' then (.top, [.plus])
+  else if c == '?' then (.top, [.qmark])
+  else if c == '.' then (.top, [.dot])
+  else if c == '{' then (.top, [.lbrace])
+  else if c == '}' then (.top, [.rbrace])
+  else if c == ',' then (.top, [.comma])
+  else (.fail, [])
 
 /-- a decoded character enters a class: `lo`, `lo-hi`. -/
 def clsFeed (items : List (Char × Char)) (pend : Option Char) (dash : Bool) (c : Char) :
@@ -123,39 +124,44 @@ def clsClose (items : List (Char × Char)) (pend : Option Char) (dash : Bool) : 
   | some p, false => ((p, p) :: items).reverse
   | none, _ => items.reverse
 
-def lexStep (len : Bool) (s : LState) (c : Char) : LState :=
-  match s.mode with
-  | .fail => s
-  | .top => lexTop len s.toks c
+/-- one character in mode `m`: (next mode, tokens emitted — latest first). -/
+def lexAction (len : Bool) (m : LMode) (c : Char) : LMode × List Tok :=
+  match m with
+  | .fail => (.fail, [])
+  | .top => lexTop len c
   | .word acc =>
-    if isWordChar len c then ⟨.word (c :: acc), s.toks⟩ else lexTop len (.name acc.reverse :: s.toks) c
-  | .colon1 => if c == ':' then ⟨.colon2, s.toks⟩ else ⟨.fail, s.toks⟩
-  | .colon2 => if c == '=' then ⟨.top, .define :: s.toks⟩ else ⟨.fail, s.toks⟩
-  | .comment => if c == '\n' || c == '\r' then ⟨.top, .nl :: s.toks⟩ else s
+    if isWordChar len c then (.word (c :: acc), [])
+    else ((lexTop len c).1, (lexTop len c).2 ++ [.name acc.reverse])
+  | .colon1 => if c == ':' then (.colon2, []) else (.fail, [])
+  | .colon2 => if c == '=' then (.top, [.define]) else (.fail, [])
+  | .comment => if c == '\n' || c == '\r' then (.top, [.nl]) else (.comment, [])
   | .str acc .none =>
-    if c == '"' then ⟨.top, .lit acc.reverse :: s.toks⟩
-    else if c == '\\' then ⟨.str acc .bs, s.toks⟩
-    else ⟨.str (c :: acc) .none, s.toks⟩
+    if c == '"' then (.top, [.lit acc.reverse])
+    else if c == '\\' then (.str acc .bs, [])
+    else (.str (c :: acc) .none, [])
   | .str acc e =>
     match escStep e c with
-    | .more e' => ⟨.str acc e', s.toks⟩
-    | .char d => ⟨.str (d :: acc) .none, s.toks⟩
-    | .err => ⟨.fail, s.toks⟩
+    | .more e' => (.str acc e', [])
+    | .char d => (.str (d :: acc) .none, [])
+    | .err => (.fail, [])
   | .cls start neg items pend dash .none =>
-    if start && c == '^' then ⟨.cls false true items pend dash .none, s.toks⟩
-    else if c == ']' then ⟨.top, .cls neg (clsClose items pend dash) :: s.toks⟩
-    else if c == '\\' then ⟨.cls false neg items pend dash .bs, s.toks⟩
-    else if c == '-' && pend.isSome && !dash then ⟨.cls false neg items pend true .none, s.toks⟩
+    if start && c == '^' then (.cls false true items pend dash .none, [])
+    else if c == ']' then (.top, [.cls neg (clsClose items pend dash)])
+    else if c == '\\' then (.cls false neg items pend dash .bs, [])
+    else if c == '-' && pend.isSome && !dash then (.cls false neg items pend true .none, [])
     else
       let r := clsFeed items pend dash c
-      ⟨.cls false neg r.1 r.2.1 r.2.2 .none, s.toks⟩
+      (.cls false neg r.1 r.2.1 r.2.2 .none, [])
   | .cls _ neg items pend dash e =>
     match escStep e c with
-    | .more e' => ⟨.cls false neg items pend dash e', s.toks⟩
+    | .more e' => (.cls false neg items pend dash e', [])
     | .char d =>
       let r := clsFeed items pend dash d
-      ⟨.cls false neg r.1 r.2.1 r.2.2 .none, s.toks⟩
-    | .err => ⟨.fail, s.toks⟩
+      (.cls false neg r.1 r.2.1 r.2.2 .none, [])
+    | .err => (.fail, [])
+
+def lexStep (len : Bool) (s : LState) (c : Char) : LState :=
+  ⟨(lexAction len s.mode c).1, (lexAction len s.mode c).2 ++ s.toks⟩
 
 def lexInit : LState := ⟨.top, []⟩
 
@@ -169,7 +175,13 @@ def lexFinish (s : LState) : Option (List Tok) :=
 def lex (len : Bool) (text : Str) : Option (List Tok) :=
   lexFinish (text.foldl (lexStep len) lexInit)
 
-/-! ## Parser (pushdown automaton over tokens) -/
+/-! ## Parser (pushdown automaton over tokens)
+
+The parser is split into a *control* automaton (`cStep`: which token sequences are accepted, which
+rule names are defined and referenced, where an empty alternative occurs — it never looks at the
+payload of a literal or class beyond "is it empty") and a *builder* (`bStep`) that runs alongside
+and assembles the rule bodies used by the derivation semantics.  The builder never influences
+acceptance. -/
 
 inductive Item where
   | lit (s : Str)
@@ -181,44 +193,38 @@ inductive Item where
 
 abbrev Alts := List (List Item)
 
-structure Frame where
-  alts : Alts              -- completed alternatives, reversed
-  cur : List Item          -- current sequence, reversed
-  lastSym : Bool           -- is there a preceding symbol a quantifier may apply to?
-  nlOk : Bool              -- directly after "::=" or "|": newlines are skipped
+/-- control view of one nesting level -/
+structure AFrame where
+  curEmpty : Bool          -- the current sequence has no item yet
+  lastSym : Bool           -- there is a preceding symbol a quantifier may apply to
+  nlOk : Bool              -- directly after "::=", "|" : newlines are skipped
   hasEmpty : Bool          -- an empty alternative was closed here (or inside a nested group)
+  deriving DecidableEq, Repr
 
-def Frame.fresh : Frame := ⟨[], [], false, true, false⟩
-
-def Frame.push (f : Frame) (i : Item) (sym : Bool) : Frame :=
-  { f with cur := i :: f.cur, lastSym := sym, nlOk := false }
-
-def Frame.closeAlts (f : Frame) : Alts := (f.cur.reverse :: f.alts).reverse
-def Frame.closeEmpty (f : Frame) : Bool := f.hasEmpty || f.cur.isEmpty
-
-/-- apply a repetition to the last item of the current sequence. -/
-def Frame.quant (f : Frame) (mn : Nat) (mx : Option Nat) : Option Frame :=
-  if f.lastSym then
-    match f.cur with
-    | i :: r => some { f with cur := .rep i mn mx :: r, lastSym := mx != some 0, nlOk := false }
-    | [] => none
-  else none
+def AFrame.fresh : AFrame := ⟨true, false, true, false⟩
+def AFrame.push (f : AFrame) (sym : Bool) : AFrame := ⟨false, sym, false, f.hasEmpty⟩
+def AFrame.closeEmpty (f : AFrame) : Bool := f.hasEmpty || f.curEmpty
+/-- apply a repetition to the last item (`mx0`: the maximum is 0, the item is erased). -/
+def AFrame.quant (f : AFrame) (mx0 : Bool) : Option AFrame :=
+  if f.lastSym && !f.curEmpty then some ⟨false, !mx0, false, f.hasEmpty⟩ else none
 
 inductive Brace where
   | none | opened | min (m : Nat) | comma (m : Nat) | max (m n : Nat)
   deriving DecidableEq, Repr
 
-inductive PMode where
+inductive CMode where
   | idle
   | gotName (n : Str)
-  | body (n : Str) (stack : List Frame) (top : Frame) (br : Brace)
+  | body (stack : List AFrame) (top : AFrame) (br : Brace)
   | fail
+  deriving DecidableEq, Repr
 
-structure PState where
-  mode : PMode
-  rules : List (Str × Alts)   -- reversed
+structure CState where
+  mode : CMode
+  names : List Str            -- reversed: names of the rules whose definition has started
   refs : List Str             -- reversed, with repetitions
-  emptyAlts : List Str        -- reversed: rules containing an empty alternative
+  empties : List Bool         -- reversed: for every *finished* rule, does it contain an empty alternative
+  deriving DecidableEq, Repr
 
 def natOfDigitsAux : Str → Nat → Option Nat
   | [], acc => some acc
@@ -226,95 +232,164 @@ def natOfDigitsAux : Str → Nat → Option Nat
 
 def natOfDigits (s : Str) : Option Nat := if s.isEmpty then none else natOfDigitsAux s 0
 
-def PState.failed (s : PState) : PState := { s with mode := .fail }
+/-- what one control step adds to the three lists of the state -/
+structure CEmit where
+  names : List Str := []
+  refs : List Str := []
+  empties : List Bool := []
+  deriving DecidableEq, Repr
 
-def endRule (s : PState) (n : Str) (top : Frame) : PState :=
-  { s with mode := .idle, rules := (n, top.closeAlts) :: s.rules,
-           emptyAlts := if top.closeEmpty then n :: s.emptyAlts else s.emptyAlts }
+def cEndRule (top : AFrame) : CMode × CEmit := (.idle, { empties := [top.closeEmpty] })
 
-def pBody (s : PState) (n : Str) (stack : List Frame) (top : Frame) : Tok → PState
-  | .lit l => { s with mode := .body n stack (top.push (.lit l) (!l.isEmpty)) .none }
-  | .cls neg rs => { s with mode := .body n stack (top.push (.cls neg rs) (!rs.isEmpty)) .none }
-  | .name r => { s with mode := .body n stack (top.push (.ref r) true) .none, refs := r :: s.refs }
-  | .dot => { s with mode := .body n stack (top.push .any true) .none }
-  | .lparen => { s with mode := .body n (top :: stack) Frame.fresh .none }
+def cQuant (stack : List AFrame) (top : AFrame) (mx0 : Bool) : CMode × CEmit :=
+  match top.quant mx0 with
+  | some t => (.body stack t .none, {})
+  | none => (.fail, {})
+
+def cBody (stack : List AFrame) (top : AFrame) : Tok → CMode × CEmit
+  | .lit l => (.body stack (top.push (!l.isEmpty)) .none, {})
+  | .cls _ rs => (.body stack (top.push (!rs.isEmpty)) .none, {})
+  | .name r => (.body stack (top.push true) .none, { refs := [r] })
+  | .dot => (.body stack (top.push true) .none, {})
+  | .lparen => (.body (top :: stack) AFrame.fresh .none, {})
   | .rparen =>
     match stack with
-    | [] => s.failed
-    | parent :: rest =>
-      let p := parent.push (.group top.closeAlts) true
-      let p' : Frame := { p with hasEmpty := p.hasEmpty || top.closeEmpty }
-      { s with mode := .body n rest p' .none }
-  | .bar =>
-    let t' : Frame := { alts := top.cur.reverse :: top.alts, cur := [], lastSym := false, nlOk := true,
-                        hasEmpty := top.closeEmpty }
-    { s with mode := .body n stack t' .none }
-  | .star => match top.quant 0 none with
-    | some t => { s with mode := .body n stack t .none } | none => s.failed
-  | .plus => match top.quant 1 none with
-    | some t => { s with mode := .body n stack t .none } | none => s.failed
-  | .qmark => match top.quant 0 (some 1) with
-    | some t => { s with mode := .body n stack t .none } | none => s.failed
-  | .lbrace => if top.lastSym then { s with mode := .body n stack top .opened } else s.failed
+    | [] => (.fail, {})
+    | parent :: rest => (.body rest ⟨false, true, false, parent.hasEmpty || top.closeEmpty⟩ .none, {})
+  | .bar => (.body stack ⟨true, false, true, top.closeEmpty⟩ .none, {})
+  | .star => cQuant stack top false
+  | .plus => cQuant stack top false
+  | .qmark => cQuant stack top false
+  | .lbrace => if top.lastSym && !top.curEmpty then (.body stack top .opened, {}) else (.fail, {})
   | .nl =>
-    if !stack.isEmpty || top.nlOk then s      -- nested, or directly after "::=" / "|"
-    else endRule s n top
-  | .define => s.failed
-  | .rbrace => s.failed
-  | .comma => s.failed
+    if !stack.isEmpty || top.nlOk then (.body stack top .none, {})   -- nested, or directly after "::=" / "|"
+    else cEndRule top
+  | .define => (.fail, {})
+  | .rbrace => (.fail, {})
+  | .comma => (.fail, {})
 
-def pBrace (s : PState) (n : Str) (stack : List Frame) (top : Frame) (br : Brace) (t : Tok) : PState :=
-  let apply (mn : Nat) (mx : Option Nat) : PState :=
-    match top.quant mn mx with
-    | some t' => { s with mode := .body n stack t' .none }
-    | none => s.failed
+def cBrace (stack : List AFrame) (top : AFrame) (br : Brace) (t : Tok) : CMode × CEmit :=
   match br, t with
-  | _, .nl => if !stack.isEmpty then s else s.failed
+  | _, .nl => if !stack.isEmpty then (.body stack top br, {}) else (.fail, {})
   | .opened, .name d => match natOfDigits d with
-    | some m => { s with mode := .body n stack top (.min m) } | none => s.failed
-  | .min m, .rbrace => apply m (some m)
-  | .min m, .comma => { s with mode := .body n stack top (.comma m) }
-  | .comma m, .rbrace => apply m none
+    | some m => (.body stack top (.min m), {})
+    | none => (.fail, {})
+  | .min m, .rbrace => cQuant stack top (m == 0)
+  | .min m, .comma => (.body stack top (.comma m), {})
+  | .comma _, .rbrace => cQuant stack top false
   | .comma m, .name d => match natOfDigits d with
-    | some k => { s with mode := .body n stack top (.max m k) } | none => s.failed
-  | .max m k, .rbrace => if k < m then s.failed else apply m (some k)
-  | _, _ => s.failed
+    | some k => (.body stack top (.max m k), {})
+    | none => (.fail, {})
+  | .max m k, .rbrace => if k < m then (.fail, {}) else cQuant stack top (k == 0)
+  | _, _ => (.fail, {})
 
-def pStep (s : PState) (t : Tok) : PState :=
-  match s.mode with
-  | .fail => s
+/-- one token in control mode `m`: (next mode, what is recorded).  The name of a rule is recorded
+when its `::=` is read; whether it has an empty alternative when it ends. -/
+def cAction (m : CMode) (t : Tok) : CMode × CEmit :=
+  match m with
+  | .fail => (.fail, {})
   | .idle =>
     match t with
-    | .nl => s
-    | .name n => { s with mode := .gotName n }
-    | _ => s.failed
+    | .nl => (.idle, {})
+    | .name n => (.gotName n, {})
+    | _ => (.fail, {})
   | .gotName n =>
     match t with
-    | .define => { s with mode := .body n [] Frame.fresh .none }
-    | _ => s.failed
-  | .body n stack top .none => pBody s n stack top t
-  | .body n stack top br => pBrace s n stack top br t
+    | .define => (.body [] AFrame.fresh .none, { names := [n] })
+    | _ => (.fail, {})
+  | .body stack top .none => cBody stack top t
+  | .body stack top br => cBrace stack top br t
 
-def pInit : PState := ⟨.idle, [], [], []⟩
+def cStep (s : CState) (t : Tok) : CState :=
+  let a := cAction s.mode t
+  ⟨a.1, a.2.names ++ s.names, a.2.refs ++ s.refs, a.2.empties ++ s.empties⟩
 
-/-- A parsed grammar: rule table in definition order, every referenced name (with repetitions, in
-order of occurrence), and the rules that contain an empty alternative. -/
-structure Grammar where
-  rules : List (Str × Alts)
-  refs : List Str
-  emptyAlts : List Str
+def cInit : CState := ⟨.idle, [], [], []⟩
 
-def Grammar.defined (g : Grammar) : List Str := g.rules.map (·.1)
-
-def pFinish (s : PState) : Option Grammar :=
+/-- end of input: a rule body may end without a newline -/
+def cFinish (s : CState) : Option CState :=
   match s.mode with
-  | .idle => some ⟨s.rules.reverse, s.refs.reverse, s.emptyAlts.reverse⟩
-  | .body n [] top .none =>
-    let s' := endRule s n top
-    some ⟨s'.rules.reverse, s'.refs.reverse, s'.emptyAlts.reverse⟩
+  | .idle => some s
+  | .body [] top .none => some ⟨.idle, s.names, s.refs, top.closeEmpty :: s.empties⟩
   | _ => none
 
-def parseToks (toks : List Tok) : Option Grammar := pFinish (toks.foldl pStep pInit)
+/-! ### builder -/
+
+structure BFrame where
+  alts : Alts              -- completed alternatives, reversed
+  cur : List Item          -- current sequence, reversed
+
+def BFrame.close (f : BFrame) : Alts := (f.cur.reverse :: f.alts).reverse
+
+structure Builder where
+  rules : List (Str × Alts)   -- reversed
+  name : Str                  -- the rule being defined
+  stack : List BFrame
+  top : BFrame
+
+def Builder.push (b : Builder) (i : Item) : Builder := { b with top := { b.top with cur := i :: b.top.cur } }
+
+def Builder.quant (b : Builder) (mn : Nat) (mx : Option Nat) : Builder :=
+  match b.top.cur with
+  | i :: r => { b with top := { b.top with cur := .rep i mn mx :: r } }
+  | [] => b
+
+def Builder.endRule (b : Builder) : Builder :=
+  { b with rules := (b.name, b.top.close) :: b.rules, stack := [], top := ⟨[], []⟩ }
+
+/-- what the builder does with token `t` when the control automaton is in state `c` (before the step). -/
+def bStep (c : CState) (b : Builder) (t : Tok) : Builder :=
+  match c.mode with
+  | .gotName n => { b with name := n, stack := [], top := ⟨[], []⟩ }
+  | .body stack top .none =>
+    match t with
+    | .lit l => b.push (.lit l)
+    | .cls neg rs => b.push (.cls neg rs)
+    | .name r => b.push (.ref r)
+    | .dot => b.push .any
+    | .lparen => { b with stack := b.top :: b.stack, top := ⟨[], []⟩ }
+    | .rparen =>
+      match b.stack with
+      | p :: rest => { b with stack := rest, top := { p with cur := .group b.top.close :: p.cur } }
+      | [] => b
+    | .bar => { b with top := ⟨b.top.cur.reverse :: b.top.alts, []⟩ }
+    | .star => b.quant 0 none
+    | .plus => b.quant 1 none
+    | .qmark => b.quant 0 (some 1)
+    | .nl => if stack.isEmpty && !top.nlOk then b.endRule else b
+    | _ => b
+  | .body _ _ br =>
+    match br, t with
+    | .min m, .rbrace => b.quant m (some m)
+    | .comma m, .rbrace => b.quant m none
+    | .max m k, .rbrace => b.quant m (some k)
+    | _, _ => b
+  | _ => b
+
+def bInit : Builder := ⟨[], [], [], ⟨[], []⟩⟩
+
+def pStep (s : CState × Builder) (t : Tok) : CState × Builder := (cStep s.1 t, bStep s.1 s.2 t)
+
+/-- A parsed grammar: names of the defined rules in definition order, every referenced name (with
+repetitions, in order of occurrence), the rules that contain an empty alternative, and the rule
+table (name, body) used by the derivation semantics. -/
+structure Grammar where
+  defined : List Str
+  refs : List Str
+  emptyAlts : List Str
+  rules : List (Str × Alts)
+
+def pFinish (s : CState × Builder) : Option Grammar :=
+  match cFinish s.1 with
+  | none => none
+  | some c =>
+    let b := match s.1.mode with
+      | .body _ _ _ => s.2.endRule
+      | _ => s.2
+    let defined := c.names.reverse
+    some ⟨defined, c.refs.reverse, ((defined.zip c.empties.reverse).filter (·.2)).map (·.1), b.rules.reverse⟩
+
+def parseToks (toks : List Tok) : Option Grammar := pFinish (toks.foldl pStep (cInit, bInit))
 
 def parse (len : Bool) (text : Str) : Option Grammar :=
   match lex len text with
